@@ -473,7 +473,9 @@ class TorchBackend:
             return torch.stack(result)
         return self.TorchUfunc(
             self, torch.subtract,
-            lambda a, dim=None: a[0] - torch.sum(a[1:]) if dim is None else None,
+            # numpy's subtract.reduce folds along axis 0: a[0] - a[1] - ... - a[n-1]
+            # (row-wise for rank >= 2), so the remaining rows are summed along dim 0 only.
+            lambda a, dim=None: a[0] - torch.sum(a[1:], dim=0) if dim is None else None,
             cumulative_subtract,
             numpy.subtract
         )
